@@ -67,6 +67,9 @@ def verify(sid, wt, prop, full):
         shutil.copy(demo, dst)
         run = re.search(r"-run\s+(\S+)", demo_cmd + " " + first)
         runarg = "-run '%s'" % run.group(1).strip("'\"") if run else ""
+        tg = re.search(r"-tags[ =](\S+)", demo_cmd + " " + first)
+        if tg:
+            runarg = "-tags %s %s" % (tg.group(1).strip("'\""), runarg)
         cmd = "go test -vet=off -count=1 %s ./%s" % (runarg, target if target != "." else "")
         cmd = cmd.replace(".//", "./").rstrip("/") if target != "." else "go test -vet=off -count=1 %s ." % runarg
         rc1, out1 = sh(cmd, scratch)
@@ -79,11 +82,11 @@ def verify(sid, wt, prop, full):
             return False, log
         sh("git apply %s" % patch, scratch)
         if full:
-            tests = "go test -vet=off -count=1 -timeout 25m ./... 2>&1 | grep -E '^(FAIL|---)' | grep -v 'TestResolveInConditional\\|TestTimeout\\|conditions/node\\|query/dns' | head -20"
+            tests = "go test -vet=off -count=1 -timeout 25m ./... 2>&1 | grep -E '^(FAIL[[:space:]]+[a-z]|--- FAIL)' | grep -v 'TestResolveInConditional\\|TestTimeout\\|conditions/node\\|query/dns' | head -20"
         else:
             pkgs = sorted(set("./" + os.path.dirname(f) + "/..." for f in files))
             extra = ["./pkg/goDB/...", "./pkg/query/...", "./pkg/results/...", "./cmd/..."]
-            tests = "go test -vet=off -count=1 -timeout 25m %s 2>&1 | grep -E '^(FAIL|--- FAIL)' | grep -v 'TestResolveInConditional\\|TestTimeout\\|conditions/node\\|query/dns' | head -20" % " ".join(sorted(set(pkgs + extra)))
+            tests = "go test -vet=off -count=1 -timeout 25m %s 2>&1 | grep -E '^(FAIL[[:space:]]+[a-z]|--- FAIL)' | grep -v 'TestResolveInConditional\\|TestTimeout\\|conditions/node\\|query/dns' | head -20" % " ".join(sorted(set(pkgs + extra)))
         rc3, out3 = sh("nice -n 5 " + tests, scratch, timeout=3000)
         log.append("repo tests with patch: failures=[%s]" % out3.strip().replace("\n", " | "))
         if out3.strip():
